@@ -761,6 +761,15 @@ def extract_h2(repo, parents):
     body = [ast.unparse(n) for n in loop.body]
     want_body = ["await self._receive_events(request)", "local_flow = self._h2_state.local_flow_control_window(stream_id)",
                  "max_frame_size = self._h2_state.max_outbound_frame_size", "flow = min(local_flow, max_frame_size)"]
+    # the wait reads the network for *any* stream's frames (no positional stream id: it must not be satisfied by events that are already
+    # queued for its own stream); since repair e601641 it names its stream as `flow_stream_id` so that a reset already filed is noticed
+    sees_resets = False
+    if body and body[0] == "await self._receive_events(request, flow_stream_id=stream_id)":
+        body = ["await self._receive_events(request)"] + body[1:]
+        fre = _find_func(tree, "_receive_events", cls=cls)
+        src_re = ast.unparse(fre)
+        guard = "if flow_stream_id is not None:\n            for event in self._events.get(flow_stream_id, []):\n                if isinstance(event, h2.events.StreamReset):\n                    raise RemoteProtocolError(event)"
+        sees_resets = guard in src_re and src_re.index(guard) < src_re.index("self._read_incoming_data")
     if body != want_body:
         raise ExtractError(f"_wait_for_outgoing_flow: loop body not recognised (both the window and the frame size must be re-read): {body}")
     if not (isinstance(fn.body[-1], ast.Return) and ast.unparse(fn.body[-1].value) == "flow"):
@@ -773,6 +782,9 @@ def extract_h2(repo, parents):
         raise ExtractError(f"_wait_for_outgoing_flow: loop test not recognised: {ast.unparse(t)}")
     out.append(f"/-- `_wait_for_outgoing_flow`: `flow = min(local window, max frame size)`, re-read after every `_receive_events`, `while {ast.unparse(t)}` -/")
     out.append(f"def flowWaits (flow : Int) : Bool := decide (flow {ops[type(t.ops[0])]} 0)")
+    out.append("/-- the flow wait names its own stream (`flow_stream_id=stream_id`) and `_receive_events` raises RemoteProtocolError for a StreamReset")
+    out.append("already filed for that stream, under the read lock and before it reads the network -/")
+    out.append("def flowWaitSeesResets : Bool := " + ("true" if sees_resets else "false"))
     fn = _find_func(tree, "_send_stream_data", cls=cls)
     want = ["while data:\n    max_flow = await self._wait_for_outgoing_flow(request, stream_id)\n    chunk_size = min(len(data), max_flow)\n"
             "    chunk, data = (data[:chunk_size], data[chunk_size:])\n    self._h2_state.send_data(stream_id, chunk)\n"
